@@ -116,6 +116,43 @@ def index_writes(body, A):
     return out
 
 
+def reset_points(f, b, A, depth=0):
+    """points of b after which the sorted-flag is false: direct reset events, or calls of crate-local functions that reset the
+    flag on every path through them"""
+    pts = [pt for pt, val, _ in flag_events(b, A) if val is False]
+    if depth < 2:
+        for pt, t in b.calls():
+            c = t.get('callee')
+            g = f.body(c.get('resolved') or c['path']) if c else None
+            if g is not None and g.key != b.key and g.d['kind'] != 'Closure':
+                if any(g.postdominates(rp, (0, 0)) for rp in reset_points(f, g, A, depth + 1)):
+                    pts.append(pt)
+    return pts
+
+
+def callers_reset(f, fn, A, depth=0):
+    """every call site of the (private) function fn is post-dominated by a reset in its caller (or the caller is itself a private
+    helper whose callers do)"""
+    sites = []
+    for cb in f.body_list:
+        if cb.promoted is not None:
+            continue
+        for pt, t in cb.calls():
+            c = t.get('callee')
+            if c and (c.get('resolved') or c['path']) == fn.key:
+                sites.append((cb, pt))
+    if not sites:
+        return False, 'the function has no caller'
+    for cb, pt in sites:
+        if any(cb.postdominates(rp, pt) for rp in reset_points(f, cb, A)):
+            continue
+        root = f.body(cb.d.get('root') or cb.path) or cb
+        if depth < 2 and not root.d.get('pub') and 'impl_trait' not in root.d and callers_reset(f, root, A, depth + 1)[0]:
+            continue
+        return False, 'caller %s does not reset the flag after the call' % cb.path
+    return True, 'every caller resets the flag after the call'
+
+
 def rule_reset(ctx):
     f = ctx.facts()
     r = RuleResult('RESET', 'every mutation of the replacement list resets the cached sort order '
@@ -129,15 +166,20 @@ def rule_reset(ctx):
                 if role in ('mutref', 'write', 'drop')]
         if not muts:
             continue
-        resets = [pt for pt, val, _ in flag_events(b, A) if val is False]
+        resets = reset_points(f, b, A)
         for pt, role, pl, node in muts:
             ok = any(b.postdominates(rp, pt) for rp in resets)
+            how = 'reset post-dominates the mutation'
+            if not ok:
+                root = f.body(b.d.get('root') or b.path) or b
+                if not root.d.get('pub') and 'impl_trait' not in root.d:
+                    ok, how = callers_reset(f, root, A)
             site = node.get('s', b.span())
-            r.site('%s mutates %s (%s)' % (b.path, A['replacements'], role), site, 'ok' if ok else 'violation')
+            r.site('%s mutates %s (%s): %s' % (b.path, A['replacements'], role, how), site, 'ok' if ok else 'violation')
             if not ok:
                 r.violation('%s:%s' % (b.path, A['replacements']), site, b.path,
                             'this function mutates the replacement list but no `store(false)` on the sorted-flag '
-                            'post-dominates the mutation: replace·observe·mutate·observe returns the stale order',
+                            'post-dominates the mutation (nor do its callers reset it): replace·observe·mutate·observe returns the stale order',
                             resets=len(resets))
     r.check_floor()
     return r
